@@ -233,6 +233,12 @@ def step (line : String) : String :=
     | ["tconn", journals, events, tags] => TConn.handle journals events tags impl
     | ["bb", ver, offset, declared, stream, ops] => BB.handle ver offset declared stream ops impl
     | ["dl", _, script] => DL.handle script impl
+    | ["lv", _, _] =>
+      -- two waiters, one frame for neither: in Model/ConnMux the only way out is `peekErr` (a deadline); with deadlines
+      -- set both calls end with an error
+      match ConnMux.run [⟨0x7000000, 0⟩] [.write 1 true 1, .write 2 true 2, .yield 1 0x7000000, .yield 2 0x7000000, .peekErr 1, .peekErr 2] with
+      | some s => answer (if (s.callList.all fun (_, c) => c.st == .done .err) then "returned:2/2" else "model?") (impl == "returned:2/2")
+      | none => "model=reject holds=0"
     | ["bbc", _, _, declared, stream, _] =>
       -- paths without a result-level model (record batches, compression): only the conclusion of
       -- `wire_discipline_consumes_frame` is applied to what was observed — a kept Conn consumed the declared frame
